@@ -3,8 +3,8 @@
 # case: ''; solver: z3
 # verifier output (counter-model):
 #   /0 = [else ->
-#       If(Or(Not(And(Var(0) == -1, Var(1) == 1)),
-#             And(Var(0) == 0, Var(1) == 1)),
+#       If(Or(And(Var(0) == 0, Var(1) == 1),
+#             Not(And(Var(0) == -1, Var(1) == 1))),
 #          0,
 #          -1)]
 #   atan2 = 1
